@@ -367,35 +367,36 @@ func (s *EtcdStore) UpdateTopicConfig(ctx context.Context, cfg *metadatapb.Topic
 
 // CreatePartitions expands a topic and writes new partition state entries.
 func (s *EtcdStore) CreatePartitions(ctx context.Context, topic string, partitionCount int32) error {
-	meta, err := s.metadata.Metadata(ctx, []string{topic})
+	var newPartitions []protocol.MetadataPartition
+	err := s.updateSnapshot(ctx, func() error {
+		meta, err := s.metadata.Metadata(ctx, []string{topic})
+		if err != nil {
+			return err
+		}
+		if len(meta.Topics) == 0 || meta.Topics[0].ErrorCode != 0 {
+			return ErrUnknownTopic
+		}
+		current := int32(len(meta.Topics[0].Partitions))
+		if partitionCount <= current {
+			return ErrInvalidTopic
+		}
+		if err := s.metadata.CreatePartitions(ctx, topic, partitionCount); err != nil {
+			return err
+		}
+		updated, err := s.metadata.Metadata(ctx, []string{topic})
+		if err != nil {
+			return err
+		}
+		if len(updated.Topics) == 0 || updated.Topics[0].ErrorCode != 0 {
+			return ErrUnknownTopic
+		}
+		newPartitions = updated.Topics[0].Partitions[current:partitionCount]
+		if int32(len(newPartitions)) != partitionCount-current {
+			return fmt.Errorf("metadata: expected %d new partitions, got %d", partitionCount-current, len(newPartitions))
+		}
+		return nil
+	})
 	if err != nil {
-		return err
-	}
-	if len(meta.Topics) == 0 || meta.Topics[0].ErrorCode != 0 {
-		return ErrUnknownTopic
-	}
-	current := int32(len(meta.Topics[0].Partitions))
-	if partitionCount <= current {
-		return ErrInvalidTopic
-	}
-	if err := s.metadata.CreatePartitions(ctx, topic, partitionCount); err != nil {
-		return err
-	}
-	// Read new partition metadata before persisting. The snapshot watcher can
-	// refresh in-memory state from etcd while persistSnapshot runs, so a later
-	// Metadata call may see a stale partition count and panic on index access.
-	updated, err := s.metadata.Metadata(ctx, []string{topic})
-	if err != nil {
-		return err
-	}
-	if len(updated.Topics) == 0 || updated.Topics[0].ErrorCode != 0 {
-		return ErrUnknownTopic
-	}
-	newPartitions := updated.Topics[0].Partitions[current:partitionCount]
-	if int32(len(newPartitions)) != partitionCount-current {
-		return fmt.Errorf("metadata: expected %d new partitions, got %d", partitionCount-current, len(newPartitions))
-	}
-	if err := s.persistSnapshot(ctx); err != nil {
 		return err
 	}
 	for _, part := range newPartitions {
@@ -428,14 +429,12 @@ func (s *EtcdStore) CreatePartitions(ctx context.Context, topic string, partitio
 // CreateTopic currently updates only the in-memory snapshot; the operator is still responsible
 // for reconciling durable topic configuration into etcd/S3.
 func (s *EtcdStore) CreateTopic(ctx context.Context, spec TopicSpec) (*protocol.MetadataTopic, error) {
-	s.persistMu.Lock()
-	defer s.persistMu.Unlock()
-
-	topic, err := s.metadata.CreateTopic(ctx, spec)
+	var topic *protocol.MetadataTopic
+	err := s.updateSnapshot(ctx, func() (err error) {
+		topic, err = s.metadata.CreateTopic(ctx, spec)
+		return err
+	})
 	if err != nil {
-		return nil, err
-	}
-	if err := s.persistSnapshotLocked(ctx); err != nil {
 		return nil, err
 	}
 	return topic, nil
@@ -463,35 +462,63 @@ func (s *EtcdStore) partitionExists(ctx context.Context, topic string, partition
 
 // DeleteTopic updates the local snapshot so admin APIs behave consistently.
 func (s *EtcdStore) DeleteTopic(ctx context.Context, name string) error {
+	return s.updateSnapshot(ctx, func() error {
+		metaCtx, cancel := context.WithTimeout(ctx, 3*time.Second)
+		defer cancel()
+		state, err := s.metadata.Metadata(metaCtx, []string{name})
+		if err != nil {
+			return err
+		}
+		var found bool
+		for _, topic := range state.Topics {
+			if *topic.Topic == name {
+				found = true
+				break
+			}
+		}
+		if !found {
+			return ErrUnknownTopic
+		}
+		if err := s.metadata.DeleteTopic(ctx, name); err != nil {
+			return err
+		}
+		if err := s.deleteTopicOffsets(ctx, name); err != nil {
+			return err
+		}
+		return s.deleteConsumerOffsets(ctx, name)
+	})
+}
+
+// errSnapshotConflict reports that the snapshot in etcd changed between the read
+// and the conditional write of updateSnapshot.
+var errSnapshotConflict = errors.New("metadata snapshot changed concurrently")
+
+const snapshotUpdateAttempts = 5
+
+// updateSnapshot applies a topic mutation as a read-modify-write on the shared
+// snapshot: it reloads the snapshot from etcd, runs mutate on the local copy and
+// writes the result back only if etcd still holds the revision that was read,
+// retrying on conflict. Other brokers and the operator write the same key, so an
+// unconditional put of a possibly stale local copy would drop their topics and
+// partitions.
+func (s *EtcdStore) updateSnapshot(ctx context.Context, mutate func() error) error {
 	s.persistMu.Lock()
 	defer s.persistMu.Unlock()
 
-	metaCtx, cancel := context.WithTimeout(ctx, 3*time.Second)
-	defer cancel()
-	state, err := s.metadata.Metadata(metaCtx, []string{name})
-	if err != nil {
-		return err
-	}
-	var found bool
-	for _, topic := range state.Topics {
-		if *topic.Topic == name {
-			found = true
-			break
+	var err error
+	for attempt := 0; attempt < snapshotUpdateAttempts; attempt++ {
+		var rev int64
+		if rev, err = s.refreshSnapshotLocked(ctx); err != nil {
+			return err
+		}
+		if err = mutate(); err != nil {
+			return err
+		}
+		if err = s.persistSnapshotLocked(ctx, rev); !errors.Is(err, errSnapshotConflict) {
+			return err
 		}
 	}
-	if !found {
-		return ErrUnknownTopic
-	}
-	if err := s.metadata.DeleteTopic(ctx, name); err != nil {
-		return err
-	}
-	if err := s.deleteTopicOffsets(ctx, name); err != nil {
-		return err
-	}
-	if err := s.deleteConsumerOffsets(ctx, name); err != nil {
-		return err
-	}
-	return s.persistSnapshotLocked(ctx)
+	return err
 }
 
 func (s *EtcdStore) startWatchers() {
@@ -528,37 +555,39 @@ func (s *EtcdStore) watchSnapshot(ctx context.Context) {
 func (s *EtcdStore) refreshSnapshot(ctx context.Context) error {
 	s.persistMu.Lock()
 	defer s.persistMu.Unlock()
+	_, err := s.refreshSnapshotLocked(ctx)
+	return err
+}
 
+// refreshSnapshotLocked replaces the local snapshot with the one stored in etcd and
+// returns its mod revision (0 when no snapshot has been published yet).
+func (s *EtcdStore) refreshSnapshotLocked(ctx context.Context) (int64, error) {
 	ctx, cancel := context.WithTimeout(ctx, 5*time.Second)
 	defer cancel()
 	resp, err := s.client.Get(ctx, snapshotKey())
 	if err != nil {
 		s.recordEtcdResult(err)
-		return err
+		return 0, err
 	}
 	s.recordEtcdResult(nil)
 	if len(resp.Kvs) == 0 {
-		return nil
+		return 0, nil
 	}
 	var snapshot ClusterMetadata
 	if err := json.Unmarshal(resp.Kvs[0].Value, &snapshot); err != nil {
-		return err
+		return 0, err
 	}
 	s.metadata.Update(snapshot)
-	return nil
+	return resp.Kvs[0].ModRevision, nil
 }
 
 func snapshotKey() string {
 	return "/kafscale/metadata/snapshot"
 }
 
-func (s *EtcdStore) persistSnapshot(ctx context.Context) error {
-	s.persistMu.Lock()
-	defer s.persistMu.Unlock()
-	return s.persistSnapshotLocked(ctx)
-}
-
-func (s *EtcdStore) persistSnapshotLocked(ctx context.Context) error {
+// persistSnapshotLocked writes the local snapshot to etcd if the stored snapshot
+// still has mod revision rev (0: no snapshot yet); otherwise errSnapshotConflict.
+func (s *EtcdStore) persistSnapshotLocked(ctx context.Context, rev int64) error {
 	state, err := s.metadata.Metadata(context.Background(), nil)
 	if err != nil {
 		return err
@@ -569,9 +598,18 @@ func (s *EtcdStore) persistSnapshotLocked(ctx context.Context) error {
 	}
 	putCtx, cancel := context.WithTimeout(ctx, 5*time.Second)
 	defer cancel()
-	_, err = s.client.Put(putCtx, snapshotKey(), string(payload))
+	resp, err := s.client.Txn(putCtx).
+		If(clientv3.Compare(clientv3.ModRevision(snapshotKey()), "=", rev)).
+		Then(clientv3.OpPut(snapshotKey(), string(payload))).
+		Commit()
 	s.recordEtcdResult(err)
-	return err
+	if err != nil {
+		return err
+	}
+	if !resp.Succeeded {
+		return errSnapshotConflict
+	}
+	return nil
 }
 
 func (s *EtcdStore) deleteTopicOffsets(ctx context.Context, topic string) error {
